@@ -234,6 +234,17 @@ def run_case(case, budget_s):
                 except Exception as e:
                     out.append('ERR')
                     streams[op[1]] = None
+            elif op[0] == 'all':
+                # the other way of draining a stream: all() = the values that remain
+                s = streams[op[1]]
+                try:
+                    vs = [] if s is None else (s.all() if sentinel is None else s.all(sentinel))
+                    out.append('all:' + ','.join(fmt(v) for v in vs))
+                except _Timeout:
+                    raise
+                except Exception as e:
+                    out.append('ERR')
+                    streams[op[1]] = None
             else:
                 out.append('bad-op')
     except _Timeout:
